@@ -281,6 +281,20 @@ Proof.
   split; [cbn; intuition lia | cbn; tauto].
 Qed.
 
+(* ---- Analysis.generate_signal_events writes the mean into the CALLER's
+   sig_kwargs dictionary: whatever entry an earlier use left there, every
+   generation hands the signal generator the mean_n_sig of that call (and none
+   when mean_n_sig = 0) ---- *)
+Theorem C08_sig_kwargs : forall (kw : option Z) (means : list Z),
+  sig_means_used kw means = map (fun m => if m =? 0 then None else Some m) means.
+Proof. exact (fun kw means => sig_means_used_spec means kw). Qed.
+Print Assumptions C08_sig_kwargs.
+
+Example C08_sig_kwargs_example :
+  sig_means_used None [1; 3; 0; 2] = [Some 1; Some 3; None; Some 2]
+  /\ sig_means_used (Some 7) [1; 3] = [Some 1; Some 3].
+Proof. split; vm_compute; reflexivity. Qed.
+
 (* ---- the caller passes the SAME service as rss and as minimizer_rss ----
    partial: the pseudo data of this trial is still that of generate_pseudo_data
    on rss, but rss is left advanced by the minimiser's `reps` requests too *)
